@@ -1020,12 +1020,29 @@ def _plain(v):
 
 
 def _clear(obs):
+    obs.pop("exception", None)
     for v in obs.values():
         del v[:]
 
 
 def _dig(obj):
     return hashlib.sha256(json.dumps(obj, sort_keys=True, default=repr).encode()).hexdigest()
+
+
+def _go(fn, case):
+    """Run (part of) a simulation; an exception is an observation like any other."""
+    try:
+        fn(case.sim)
+    except Exception as e:
+        case.obs["exception"] = [type(e).__name__, str(e)[:200]]
+
+
+def _trace(case):
+    return json.loads(json.dumps(case.obs))
+
+
+def _t0(case):
+    return case.obs["t0"][0] if case.obs.get("t0") else None
 
 
 def run_sim_history(name):
@@ -1038,39 +1055,41 @@ def run_sim_history(name):
     s0 = engine_state(c1)
     if s0 is not None:
         ev.append(("init_state", "fresh_engine", s0))
-    c1.go(c1.sim)
-    ev.append(("sim_trace", "first", json.loads(json.dumps(c1.obs))))
-    ev.append(("state_at_time_0", "first", c1.obs["t0"][0]))
+    _go(c1.go, c1)
+    if "exception" in c1.obs:
+        raise RuntimeError("the first run of simulation %s raised %r" % (name, c1.obs["exception"]))
+    ev.append(("sim_trace", "first", _trace(c1)))
+    ev.append(("state_at_time_0", "first", _t0(c1)))
     # a second fresh simulator
     c2 = mk()
     s0b = engine_state(c2)
     if s0b is not None:
         ev.append(("init_state", "second_fresh_engine", s0b))
-    c2.go(c2.sim)
-    ev.append(("sim_trace", "rerun", json.loads(json.dumps(c2.obs))))
+    _go(c2.go, c2)
+    ev.append(("sim_trace", "rerun", _trace(c2)))
     # reset() after a complete run
     _clear(c1.obs)
-    c1.sim.reset()
+    _go(lambda s: s.reset(), c1)
     s1 = engine_state(c1)
     if s1 is not None:
         ev.append(("post_reset_state", "after_reset", s1))
-    c1.go(c1.sim)
-    ev.append(("sim_trace", "after_reset", json.loads(json.dumps(c1.obs))))
-    ev.append(("state_at_time_0", "after_reset", c1.obs["t0"][0]))
+    _go(c1.go, c1)
+    ev.append(("sim_trace", "after_reset", _trace(c1)))
+    ev.append(("state_at_time_0", "after_reset", _t0(c1)))
     # reset() in the middle of a run, twice
     c3 = mk()
-    c3.part(c3.sim)
+    _go(c3.part, c3)
     _clear(c3.obs)
-    c3.sim.reset()
+    _go(lambda s: s.reset(), c3)
     s3 = engine_state(c3)
     if s3 is not None:
         ev.append(("post_reset_state", "after_partial_run_and_reset", s3))
-    c3.part(c3.sim)
+    _go(c3.part, c3)
     _clear(c3.obs)
-    c3.sim.reset()
-    c3.go(c3.sim)
-    ev.append(("sim_trace", "after_partial_run_and_reset", json.loads(json.dumps(c3.obs))))
-    ev.append(("state_at_time_0", "after_partial_run_and_reset", c3.obs["t0"][0]))
+    _go(lambda s: s.reset(), c3)
+    _go(c3.go, c3)
+    ev.append(("sim_trace", "after_partial_run_and_reset", _trace(c3)))
+    ev.append(("state_at_time_0", "after_partial_run_and_reset", _t0(c3)))
     return [(k, ph, _dig(p), p) for k, ph, p in ev]
 
 
@@ -1270,8 +1289,9 @@ def convert_history(name, outdir=None):
         try:
             t2 = rtlil.convert(d, ports=ports)
             ev.append(("rtlil", "same_object_again", hashlib.sha256(t2.encode()).hexdigest(), _port_lines(t2)))
-        except Exception as e:          # converting one object twice is not supported by every elaboratable
-            ev.append(("skip", "same_object_again", type(e).__name__ + ": " + str(e)[:200], None))
+        except Exception as e:          # an exception is an observation too (it differs from the first text)
+            msg = "exception " + type(e).__name__ + ": " + str(e)[:200]
+            ev.append(("rtlil", "same_object_again", hashlib.sha256(msg.encode()).hexdigest(), [msg]))
         d3, ports3 = fn()
         t3 = rtlil.convert(d3, ports=ports3)
         ev.append(("rtlil", "rebuilt", hashlib.sha256(t3.encode()).hexdigest(), _port_lines(t3)))
@@ -1528,8 +1548,6 @@ def build_histories(results, seeds, names):
             for p, (res, seed) in enumerate(zip(results, seeds)):
                 for ev in res[fam][name]:
                     kind, phase, digest = ev[0], ev[1], ev[2]
-                    if kind == "skip":
-                        continue
                     events.append({"design": name, "kind": kind, "proc": p, "seed": seed, "phase": phase,
                                    "digest": intern(digest)})
                     raw.append((p, seed, kind, phase, digest, ev[3] if len(ev) > 3 else None))
@@ -1575,10 +1593,11 @@ def _describe(m, step, clause, results):
     elif payload is not None and f[5] is not None and kind != "sim_trace":
         txt += "\n  there: %s\n  here:  %s" % (json.dumps(f[5])[:400], json.dumps(payload)[:400])
     elif kind == "sim_trace":
-        for k in sorted(payload):
-            if payload[k] != f[5].get(k):
-                i = next((i for i, (x, y) in enumerate(zip(payload[k], f[5][k])) if x != y), min(len(payload[k]), len(f[5][k])))
-                txt += "\n  testbench %r: observation %d differs: there %s, here %s" % (k, i, f[5][k][i:i + 1], payload[k][i:i + 1])
+        for k in sorted(set(payload) | set(f[5])):
+            here, there = payload.get(k, []), f[5].get(k, [])
+            if here != there:
+                i = next((i for i, (x, y) in enumerate(zip(here, there)) if x != y), min(len(here), len(there)))
+                txt += "\n  testbench %r: observation %d differs: there %s, here %s" % (k, i, there[i:i + 1], here[i:i + 1])
                 break
     return txt
 
@@ -1653,9 +1672,6 @@ def stage_histories(ctx, designs, canon, alls):
     ctx.cov["catalogue_features"] = have
     job = dict(names, model=[designs[k] for k in sorted(designs)])
     results = run_children(ctx, seeds, job, "hist")
-    skipped = sorted({(n, e[2]) for r in results for n, evs in r["rtlil"].items() for e in evs if e[0] == "skip"})
-    if skipped:
-        ctx.notes.append("converting the same object twice is not supported for: %r" % skipped[:5])
     if not all(any(e[0] == "post_reset_state" for e in results[0]["sim"][n]) for n in names["sim"]):
         ctx.notes.append("engine-level state was not available: ResetRestoresInit judged on the testbench view only")
     model_agreement(ctx, results, designs, canon, alls)
